@@ -20,7 +20,7 @@ import (
 
 var benignFaults = []string{"resegment", "dribble", "random-cuts", "latency", "jitter", "short-read", "finite-window", "starved-node", "deadline-retry", "preempt"}
 var benignReach = []string{"A1-proto-mismatch", "A2-version", "A3-no-suite", "A4-ecdhe-gm", "A5-missing-certs", "A6-server-verify", "A7-client-auth", "A8-callback-error", "A9-complete",
-	"gm-cbc", "gm-gcm", "tls10", "tls11", "tls12", "client-cert-sent", "callbacks-cert", "getconfigforclient", "payload>=16k", "payload-0", "stdlib-client", "stdlib-server", "wire-decoded", "vhost-second-name", "timeout-retried", "auto-gm", "auto-tls", "wire-decoded-tls12"}
+	"gm-cbc", "gm-gcm", "tls10", "tls11", "tls12", "client-cert-sent", "callbacks-cert", "getconfigforclient", "payload>=16k", "payload-0", "stdlib-client", "stdlib-server", "wire-decoded", "vhost-second-name", "timeout-retried", "auto-gm", "auto-tls", "wire-decoded-tls12", "alpn-negotiated"}
 
 func init() {
 	register(Family{Name: "tls-benign", Prop: "C06", ID: 601, Weight: 1, FaultNames: benignFaults, ReachNames: benignReach, Run: runTLSBenign})
@@ -81,6 +81,8 @@ type benignParams struct {
 	SrvClientCAs bool
 	SrvCertSrc   int      // 0 static 1 callbacks 2 GetConfigForClient 3 callbacks decline (nil, nil), static list present 4 callbacks decline, nothing static
 	Curves       []uint16 // TLS: CurvePreferences of both ends (nil = default)
+	CProtos      []string // NextProtos of the client (ALPN)
+	SProtos      []string // NextProtos of the server
 	CliCertSrc   int      // 0 static 1 GetClientCertificate
 	Tickets      bool
 	DynOff       bool
@@ -168,6 +170,21 @@ func drawBenignParams(c *simkit.Choice) benignParams {
 		p.CMin = vs[c.Weighted([]int{3, 3, 1, 2}, simkit.LScen)]
 		p.SMin = vs[c.Weighted([]int{3, 3, 1, 2}, simkit.LScen)]
 		p.SrvKey = c.Weighted([]int{3, 1}, simkit.LScen)
+	}
+	// application protocols: none, both ends with a common entry, one end only
+	protoPool := []string{"h2", "http/1.1", "sim/1", "sim/2"}
+	switch c.Weighted([]int{3, 3, 1, 1}, simkit.LScen) {
+	case 1:
+		common := protoPool[c.Choose(4, simkit.LScen)]
+		p.CProtos = []string{protoPool[c.Choose(4, simkit.LScen)], common}
+		p.SProtos = []string{common, protoPool[c.Choose(4, simkit.LScen)]}
+		if c.Bool(1, 2, simkit.LScen) {
+			p.SProtos[0], p.SProtos[1] = p.SProtos[1], p.SProtos[0]
+		}
+	case 2:
+		p.CProtos = []string{protoPool[c.Choose(4, simkit.LScen)]}
+	case 3:
+		p.SProtos = []string{protoPool[c.Choose(4, simkit.LScen)]}
 	}
 	p.PreferServer = c.Bool(1, 3, simkit.LScen)
 	p.ClientAuth = gmtls.ClientAuthType(c.Weighted([]int{4, 1, 1, 1, 2}, simkit.LScen))
@@ -416,8 +433,8 @@ func gmOnly(l []uint16) []uint16 {
 }
 
 func (p *benignParams) String() string {
-	return fmt.Sprintf("curves=%v smode=%d cgm=%v peer=%d csuites=%x ssuites=%x prefsrv=%v cver=[%x,%x] sver=[%x,%x] auth=%d ccert=%d cas=%v ssrc=%d csrc=%d tick=%v dyn=%v skey=%d cberr=%d cverify=%d chain=%d missing=%v vhost=%v",
-		p.Curves, p.SMode, p.CGM, p.Peer, p.CSuites, p.SSuites, p.PreferServer, p.CMin, p.CMax, p.SMin, p.SMax, p.ClientAuth, p.ClientCert, p.SrvClientCAs, p.SrvCertSrc, p.CliCertSrc, p.Tickets, p.DynOff, p.SrvKey, p.CallbackErr, p.CVerify, p.SrvChain, p.SrvMissing, p.VHost)
+	return fmt.Sprintf("alpn=%v/%v curves=%v smode=%d cgm=%v peer=%d csuites=%x ssuites=%x prefsrv=%v cver=[%x,%x] sver=[%x,%x] auth=%d ccert=%d cas=%v ssrc=%d csrc=%d tick=%v dyn=%v skey=%d cberr=%d cverify=%d chain=%d missing=%v vhost=%v",
+		p.CProtos, p.SProtos, p.Curves, p.SMode, p.CGM, p.Peer, p.CSuites, p.SSuites, p.PreferServer, p.CMin, p.CMax, p.SMin, p.SMax, p.ClientAuth, p.ClientCert, p.SrvClientCAs, p.SrvCertSrc, p.CliCertSrc, p.Tickets, p.DynOff, p.SrvKey, p.CallbackErr, p.CVerify, p.SrvChain, p.SrvMissing, p.VHost)
 }
 
 // serverConfig builds the gmtls server configuration.
@@ -461,6 +478,7 @@ func (p *benignParams) serverConfig(s *simkit.Sim, ent *simkit.Stream, res *endR
 		for _, id := range p.Curves {
 			c.CurvePreferences = append(c.CurvePreferences, gmtls.CurveID(id))
 		}
+		c.NextProtos = p.SProtos
 	}
 	certs := func(c *gmtls.Config) {
 		switch p.SMode {
@@ -599,6 +617,7 @@ func (p *benignParams) clientConfig(s *simkit.Sim, ent *simkit.Stream, res *endR
 		cfg.InsecureSkipVerify = true
 	}
 	cfg.CipherSuites = p.CSuites
+	cfg.NextProtos = p.CProtos
 	cfg.MinVersion, cfg.MaxVersion = p.CMin, p.CMax
 	cfg.DynamicRecordSizingDisabled = p.DynOff
 	for _, id := range p.Curves {
@@ -807,6 +826,7 @@ func runTLSBenign(c *simkit.Choice, r *simkit.Rec) {
 		vers   uint16
 		suite  uint16
 		resume bool
+		proto  string
 		peer   [][]byte
 		ekm    [3][]byte
 		read   []byte
@@ -822,20 +842,20 @@ func runTLSBenign(c *simkit.Choice, r *simkit.Rec) {
 		return o
 	}
 	if p.Peer == peerStdClient {
-		cv = endView{err: stdC.HsErr, done: stdC.Done, vers: stdC.State.Version, suite: stdC.State.CipherSuite, resume: stdC.State.DidResume, ekm: stdC.EKM, read: stdC.Read, rerr: stdC.ReadErr, werr: stdC.WErr}
+		cv = endView{err: stdC.HsErr, done: stdC.Done, vers: stdC.State.Version, suite: stdC.State.CipherSuite, resume: stdC.State.DidResume, proto: stdC.State.NegotiatedProtocol, ekm: stdC.EKM, read: stdC.Read, rerr: stdC.ReadErr, werr: stdC.WErr}
 		for _, x := range stdC.State.PeerCertificates {
 			cv.peer = append(cv.peer, x.Raw)
 		}
 	} else {
-		cv = endView{err: cr.HsErr, done: cr.HsDone, vers: cr.State.Version, suite: cr.State.CipherSuite, resume: cr.State.DidResume, peer: rawCerts(cr.State), ekm: cr.EKM, read: cr.Read, rerr: cr.ReadErr, werr: cr.WriteErr}
+		cv = endView{err: cr.HsErr, done: cr.HsDone, vers: cr.State.Version, suite: cr.State.CipherSuite, resume: cr.State.DidResume, proto: cr.State.NegotiatedProtocol, peer: rawCerts(cr.State), ekm: cr.EKM, read: cr.Read, rerr: cr.ReadErr, werr: cr.WriteErr}
 	}
 	if p.Peer == peerStdServer {
-		sv = endView{err: stdS.HsErr, done: stdS.Done, vers: stdS.State.Version, suite: stdS.State.CipherSuite, resume: stdS.State.DidResume, ekm: stdS.EKM, read: stdS.Read, rerr: stdS.ReadErr, werr: stdS.WErr}
+		sv = endView{err: stdS.HsErr, done: stdS.Done, vers: stdS.State.Version, suite: stdS.State.CipherSuite, resume: stdS.State.DidResume, proto: stdS.State.NegotiatedProtocol, ekm: stdS.EKM, read: stdS.Read, rerr: stdS.ReadErr, werr: stdS.WErr}
 		for _, x := range stdS.State.PeerCertificates {
 			sv.peer = append(sv.peer, x.Raw)
 		}
 	} else {
-		sv = endView{err: sr.HsErr, done: sr.HsDone, vers: sr.State.Version, suite: sr.State.CipherSuite, resume: sr.State.DidResume, peer: rawCerts(sr.State), ekm: sr.EKM, read: sr.Read, rerr: sr.ReadErr, werr: sr.WriteErr}
+		sv = endView{err: sr.HsErr, done: sr.HsDone, vers: sr.State.Version, suite: sr.State.CipherSuite, resume: sr.State.DidResume, proto: sr.State.NegotiatedProtocol, peer: rawCerts(sr.State), ekm: sr.EKM, read: sr.Read, rerr: sr.ReadErr, werr: sr.WriteErr}
 	}
 
 	// both fail or both complete
@@ -909,6 +929,52 @@ func runTLSBenign(c *simkit.Choice, r *simkit.Rec) {
 	}
 	if wantSuite != 0 && cv.suite != wantSuite {
 		r.Violate("wrong-suite", site, fmt.Sprintf("negotiated %x, preference order selects %x [%s]", cv.suite, wantSuite, p.String()))
+		return
+	}
+	// application protocol: both ends report the same one; with a common entry it
+	// is the server's first choice among what the client offered (RFC 7301 3.2)
+	if cv.proto != sv.proto {
+		r.Violate("disagree", site, fmt.Sprintf("NegotiatedProtocol: client %q, server %q [%s]", cv.proto, sv.proto, p.String()))
+		return
+	}
+	wantProto := ""
+	for _, sp := range p.SProtos {
+		for _, cp := range p.CProtos {
+			if sp == cp && wantProto == "" {
+				wantProto = sp
+			}
+		}
+	}
+	if p.CGM {
+		// (GM/T 0024 has no application-protocol negotiation; gmtls' GMSSL hello does
+		// not carry the extension: agreement only)
+	} else if len(p.CProtos) > 0 && len(p.SProtos) > 0 {
+		if cv.proto != wantProto {
+			r.Violate("wrong-protocol", site, fmt.Sprintf("NegotiatedProtocol %q, the server's first choice among the client's offer is %q [%s]", cv.proto, wantProto, p.String()))
+			return
+		}
+		r.Reach(idx(benignReach, "alpn-negotiated"))
+	} else if cv.proto != "" && len(p.SProtos) == 0 {
+		r.Violate("wrong-protocol", site, fmt.Sprintf("NegotiatedProtocol %q although the server has no protocols configured [%s]", cv.proto, p.String()))
+		return
+	}
+	// the server sees the name the client asked for
+	if p.Peer != peerStdServer {
+		wantName := "server.sim"
+		if p.VHost {
+			wantName = "server2.sim"
+		}
+		if p.CVerify == 1 {
+			wantName = "other.sim"
+		}
+		if sr.State.ServerName != wantName {
+			r.Violate("server-name", site, fmt.Sprintf("server's ConnectionState.ServerName is %q, the client asked for %q [%s]", sr.State.ServerName, wantName, p.String()))
+			return
+		}
+	}
+	// verified chains are reported where verification took place
+	if p.Peer != peerStdClient && p.CVerify == 0 && len(cr.State.VerifiedChains) == 0 {
+		r.Violate("peer-certs", site, "client verified the server but reports no VerifiedChains ["+p.String()+"]")
 		return
 	}
 	for i := range ekmArgs {
@@ -1119,6 +1185,7 @@ func stdClientRun(p *benignParams, raw *simkit.Conn, ent *simkit.Stream, plan *a
 		cfg.InsecureSkipVerify = true
 	}
 	cfg.CipherSuites = stdSuites(p.CSuites)
+	cfg.NextProtos = p.CProtos
 	cfg.MinVersion, cfg.MaxVersion = effVers(p.CMin, tls.VersionTLS10), effVers(p.CMax, tls.VersionTLS12)
 	if cfg.MinVersion > cfg.MaxVersion {
 		cfg.MinVersion = cfg.MaxVersion
@@ -1148,6 +1215,7 @@ func stdServerRun(p *benignParams, raw *simkit.Conn, ent *simkit.Stream, plan *a
 	}
 	cfg.Certificates = []tls.Certificate{{Certificate: [][]byte{pki.DER(name)}, PrivateKey: pki.StdKey(name)}}
 	cfg.CipherSuites = stdSuites(p.SSuites)
+	cfg.NextProtos = p.SProtos
 	cfg.MinVersion, cfg.MaxVersion = effVers(p.SMin, tls.VersionTLS10), effVers(p.SMax, tls.VersionTLS12)
 	if cfg.MinVersion > cfg.MaxVersion {
 		cfg.MinVersion = cfg.MaxVersion
